@@ -165,7 +165,7 @@ func TestVerifPersist(t *testing.T) {
 	tr := vopen(t, "persist")
 	defer tr.close()
 	r := &vrng{s: vseed()*179424673 + 59}
-	nstreams := vscale(6, 12)
+	nstreams := vscale(8, 16)
 	if os.Getenv("VERIF_PERSIST") == "restore-only" {
 		nstreams = vscale(40, 400)
 	}
@@ -174,6 +174,9 @@ func TestVerifPersist(t *testing.T) {
 		shrunk := c%6 == 2 // a cache that held many entries, shrank to a hot set that was read often, and is saved then
 		if shrunk {
 			size = int64(1100 + r.intn(400))
+		}
+		if c%8 == 6 {
+			size = int64(300 + r.intn(300)) // large enough for a default window above 1, so that the climber's first step can shrink it
 		}
 		wall0 := int64(1_700_000_000_000_000_000) + int64(r.next()%(1<<50))
 		vsetNow(wall0)
@@ -194,6 +197,13 @@ func TestVerifPersist(t *testing.T) {
 		src.timerwheel.clock.Start = time.Unix(0, wall0-uptime)
 		src.timerwheel.nanos = uptime
 		src.timerwheel.clock.SetNowCache(uptime)
+		// the hill climber's first step always SHRINKS the window: window 1, the protected region larger by the same amount
+		shrunkWindow := c%8 == 6
+		if shrunkWindow && src.policy.window.capacity > 1 {
+			d := src.policy.window.capacity - 1
+			src.policy.window.capacity -= d
+			src.policy.slru.protected.capacity += d
+		}
 		adapted := c%3 == 1
 		if adapted && size > 40 {
 			// the adaptive window has grown (as the hill climber does), protected shrank by the same amount
@@ -220,10 +230,18 @@ func TestVerifPersist(t *testing.T) {
 			if zeroCosts && r.chance(60) {
 				cost = 0 // decided by the Cost function: 0 for every third value
 			}
+			if shrunkWindow {
+				cost, ttl = 1, 0 // unit costs, nothing expires: the enlarged protected region fills to its last unit
+			}
 			src.Set(i, i*7+1, cost, ttl)
 			vdrainWrites(src)
 			if r.chance(40) {
 				src.Get(r.intn(i + 1))
+			}
+			if shrunkWindow {
+				for g := 0; g < 3; g++ {
+					src.Get(r.intn(i + 1))
+				}
 			}
 		}
 		vdrainWrites(src)
